@@ -33,6 +33,8 @@ def setup():
     from typhon.files.handlers.common import FileHandler, FileInfo
     _T.update(fsmod=fsmod, FileSet=FileSet, FileHandler=FileHandler,
               FileInfo=FileInfo, NoFilesError=fsmod.NoFilesError)
+    from sim.seams import typhon_state
+    _T["state"] = typhon_state()
 
 
 class SimFS(MemoryFileSystem):
